@@ -895,7 +895,16 @@ Definition resume (s0 : st) (t : tid) (fo : option fid) : st * res :=
       match x, inc with
       | XRaise e, _ => let '(s2, r) := aexit_raise s1 t g e in ret_to_puppet s2 t r
       | XTrue, _ => aexit_wait_or_finish s1 t g None exc
-      | XFalse, Some e => let '(s2, r) := aexit_raise s1 t g e in ret_to_puppet s2 t r
+      | XFalse, Some e =>
+          if is_cancel e then
+            (* `except CancelledError` around the checkpoint: treated like a cancellation in the wait loop *)
+            let s2 := scope_cancel s1 (g_scope (groups s1 g)) false in
+            let exc' := match exc with
+                        | None => Some e
+                        | Some old => if is_cancel old && negb (is_anyio_cancel e) then Some e else Some old
+                        end in
+            aexit_wait_or_finish s2 t g None exc'
+          else let '(s2, r) := aexit_raise s1 t g e in ret_to_puppet s2 t r
       | XFalse, None => aexit_wait_or_finish s1 t g None exc
       end
   | CStartWait g child f =>
